@@ -142,7 +142,14 @@ def sync_level(scr, tier, prop, prefix, plan, replay_file=None):
                 core = core[:max(1, quota // 4)]
                 scs = vlib.sample(scs, quota, rng, core=core)
             scenarios += scs
-    traces = vlib.replay(scr, plan["pkg"], scenarios, prop)
+    if "pkgs" in plan:
+        traces = []
+        for kind, pkg in plan["pkgs"].items():
+            part = [s for s in scenarios if s["cfg"].get("kind", "composite") == kind]
+            if part:
+                traces += vlib.replay(scr, pkg, part, prop + "-" + kind)
+    else:
+        traces = vlib.replay(scr, plan["pkg"], scenarios, prop)
     hits, st, tr = vlib.validate_traces(scr, traces)
     states += st
     trans += tr
